@@ -152,7 +152,9 @@ def run_seq(segs, prog, dc, expected, finisher=7):
     except Bad as b:
         return b
     except SimStall as e:
-        raise HarnessError("SimStall %s" % e)
+        # the whole well-formed message has been delivered and the connection is idle: a read that still waits for
+        # bytes would block for ever
+        return Bad("reads-beyond-the-end-of-the-message", str(e)[:120], "every read returns once the message is complete", None)
     except Exception as e:  # noqa: BLE001  any exception on a well-formed response is a violation
         return Bad("exception", "%s: %s" % (type(e).__name__, str(e)[:160]), "no exception on a well-formed response", None)
     if bytes(pieces) != expected:
@@ -210,7 +212,9 @@ def run_single(segs, prog, dc, expected, chunked):
     except Bad as b:
         return b
     except SimStall as e:
-        raise HarnessError("SimStall %s" % e)
+        # the whole well-formed message has been delivered and the connection is idle: a read that still waits for
+        # bytes would block for ever
+        return Bad("reads-beyond-the-end-of-the-message", str(e)[:120], "every read returns once the message is complete", None)
     except Exception as e:  # noqa: BLE001
         return Bad("exception", "%s: %s" % (type(e).__name__, str(e)[:160]), "no exception on a well-formed response", None)
     if got != expected:
@@ -267,7 +271,9 @@ def run_mixed(segs, prog, dc, expected, chunked):
     except Bad as b:
         return b
     except SimStall as e:
-        raise HarnessError("SimStall %s" % e)
+        # the whole well-formed message has been delivered and the connection is idle: a read that still waits for
+        # bytes would block for ever
+        return Bad("reads-beyond-the-end-of-the-message", str(e)[:120], "every read returns once the message is complete", None)
     except Exception as e:  # noqa: BLE001
         return Bad("exception", "%s: %s" % (type(e).__name__, str(e)[:160]), "no exception on a well-formed response", None)
     if got != expected:
